@@ -34,6 +34,7 @@ inductive Prim
   | enter                                  -- Database.__enter__
   | exit                                   -- Database.__exit__(None, None, None)
   | exitExc                                -- Database.__exit__ with an exception (IgnoreCommits or any other)
+  | kill                                   -- SIGKILL + reopen by a fresh process, as a workload step (kill/restart cycles)
   deriving DecidableEq, Repr
 
 /-- the body of `Database.commit`, one primitive list per value of the test `if self._pending_commits:` -/
@@ -97,6 +98,9 @@ def commitBody : List Prim → Db → Db
 def doCommit (C : CommitMethod) (db : Db) : Db :=
   commitBody (if db.defer = 0 then C.idle else C.deferred) db
 
+/-- SIGKILL, then a fresh process opens the file: only the committed image survives -/
+def recover (db : Db) : Db := { db with work := db.durable, defer := 0 }
+
 inductive Status
   | running | returned | raised
   deriving DecidableEq, Repr
@@ -124,6 +128,7 @@ def stepPrim (C : CommitMethod) (c : Call) (p : Prim) (db : Db) : Db × Status :
     let db' := { db with defer := 0 }
     (if db.defer > 1 then doCommit C db' else db', .running)
   | .exitExc => ({ db with defer := 0 }, .running)
+  | .kill => (recover db, .running)
 
 /-- run at most `n` primitives of a call (crash point `n` inside the call) -/
 def runPrims (C : CommitMethod) (c : Call) : Nat → List Prim → Db → Db
@@ -138,15 +143,16 @@ def runCall (C : CommitMethod) (db : Db) (c : Call) : Db := runPrims C c c.ops.l
 
 def runCalls (C : CommitMethod) (W : List Call) (db : Db) : Db := W.foldl (runCall C) db
 
-/-- state of the process when it is killed after `k` complete calls and `j` primitives of call `k` -/
-def crashAt (C : CommitMethod) (W : List Call) (k j : Nat) : Db :=
-  let s := runCalls C (W.take k) Db.init
+/-- state of a process that starts on store `db` when it is killed after `k` complete calls and `j` primitives
+    of call `k` -/
+def crashFrom (C : CommitMethod) (db : Db) (W : List Call) (k j : Nat) : Db :=
+  let s := runCalls C (W.take k) db
   match W[k]? with
   | some c => runPrims C c j c.ops s
   | none => s
 
-/-- SIGKILL, then a fresh process opens the file: only the committed image survives -/
-def recover (db : Db) : Db := { db with work := db.durable, defer := 0 }
+/-- the same on a new, empty store -/
+def crashAt (C : CommitMethod) (W : List Call) (k j : Nat) : Db := crashFrom C Db.init W k j
 
 /-- the rows a fresh process sees -/
 def visible (db : Db) : List Row := (recover db).work
@@ -166,7 +172,22 @@ def specStep (st : List Row × List Nat) (c : Call) : List Row × List Nat :=
     | none => st
   | none => st
 
-def spec (W : List Call) : List Row × List Nat := W.foldl specStep ([], [])
+def specFrom (st : List Row × List Nat) (W : List Call) : List Row × List Nat := W.foldl specStep st
+
+def spec (W : List Call) : List Row × List Nat := specFrom ([], []) W
+
+/-- one process lifetime: its workload and the point at which it is killed -/
+structure Life where
+  W : List Call
+  k : Nat
+  j : Nat
+
+/-- the calls of a lifetime whose commit happened before the kill -/
+def Life.survivors (l : Life) : List Call := l.W.take (if l.j ≤ 1 then l.k else l.k + 1)
+
+/-- any number of start / work / kill cycles on the same file -/
+def runLives (C : CommitMethod) (db : Db) (ls : List Life) : Db :=
+  ls.foldl (fun db l => recover (crashFrom C db l.W l.k l.j)) db
 
 /-- shape every insert must have: one INSERT (never OR REPLACE), then `self.commit()`, then return -/
 def wfInsertPath (ops : List Prim) : Bool :=
@@ -187,10 +208,11 @@ def bindsPk (tables : List TableInfo) (m : Method) : Bool :=
 
 /-- statements of the schema script as classified by the translator -/
 inductive SchemaStmt
-  | createTable (tid : Nat)
-  | createOption
-  | deleteVersion
-  | insertVersion
+  | createTable (tid : Nat)      -- CREATE TABLE IF NOT EXISTS <record table>
+  | createOption                 -- CREATE TABLE IF NOT EXISTS option
+  | deleteVersion                -- DELETE FROM option WHERE key = 'database_version'
+  | insertVersion                -- INSERT INTO option … 'database_version'   (IntegrityError if the row exists)
+  | upsertVersion                -- INSERT OR REPLACE INTO option … 'database_version'
   | other
   deriving DecidableEq, Repr
 
@@ -205,25 +227,70 @@ structure OpenSt where
   version : Bool := false     -- the `database_version` row exists
   deriving DecidableEq, Repr
 
-def schemaStep (s : OpenSt) : SchemaStmt → OpenSt
-  | .createTable t => if s.tables.contains t then s else { s with tables := s.tables ++ [t] }
-  | .createOption => { s with option := true }
-  | .deleteVersion => { s with version := false }
-  | .insertVersion => { s with version := true }     -- (a second INSERT would raise; the script deletes first)
-  | .other => s
+/-- one statement of the schema script; `none` = the statement raises (no such table / duplicate key) -/
+def schemaStep (s : OpenSt) : SchemaStmt → Option OpenSt
+  | .createTable t => some (if s.tables.contains t then s else { s with tables := s.tables ++ [t] })
+  | .createOption => some { s with option := true }
+  | .deleteVersion => if s.option then some { s with version := false } else none
+  | .insertVersion => if s.option && !s.version then some { s with version := true } else none
+  | .upsertVersion => if s.option then some { s with version := true } else none
+  | .other => some s
+
+/-- run a list of statements; each commits on its own (`executescript`), so the state reached survives a raise.
+    Result: the state reached and whether a statement raised. -/
+def runList : List SchemaStmt → OpenSt → OpenSt × Bool
+  | [], s => (s, false)
+  | st :: rest, s =>
+    match schemaStep s st with
+    | some s' => runList rest s'
+    | none => (s, true)
 
 /-- `_prepare_version`: with an `option` table but no version row, `next()` on the empty result raises
     StopIteration; it is survived only if the handler list covers it -/
 def versionReadOk (handlers : List ExcKind) (s : OpenSt) : Bool :=
   !s.option || s.version || handlers.contains .stopIteration
 
-/-- `open()` on a file in state `s`, killed after `n` statements of the script (each is its own transaction) -/
-def openDb (handlers : List ExcKind) (script : List SchemaStmt) (n : Nat) (s : OpenSt) : Option OpenSt :=
-  if versionReadOk handlers s then some ((script.take n).foldl schemaStep s) else none
+/-- file state after an `open()` that is killed after `n` statements of the script (or raises before) -/
+def openKilled (handlers : List ExcKind) (script : List SchemaStmt) (n : Nat) (s : OpenSt) : OpenSt :=
+  if versionReadOk handlers s then (runList (script.take n) s).1 else s
 
-/-- the script is safe to re-run and leaves a complete schema -/
-def scriptComplete (tables : List Nat) (script : List SchemaStmt) : Bool :=
-  let s := script.foldl schemaStep {}
-  tables.all (fun t => s.tables.contains t) && s.option && s.version
+/-- a complete `open()` on file state `s` raises nothing -/
+def openOk (handlers : List ExcKind) (script : List SchemaStmt) (s : OpenSt) : Bool :=
+  versionReadOk handlers s && !(runList script s).2
+
+/-- file state after a complete `open()` -/
+def openEnd (script : List SchemaStmt) (s : OpenSt) : OpenSt := (runList script s).1
+
+/-! the same on the two flags only (finite: used to decide the generated scripts for every start state) -/
+
+def flagStep (f : Bool × Bool) : SchemaStmt → Option (Bool × Bool)
+  | .createTable _ => some f
+  | .createOption => some (true, f.2)
+  | .deleteVersion => if f.1 then some (f.1, false) else none
+  | .insertVersion => if f.1 && !f.2 then some (f.1, true) else none
+  | .upsertVersion => if f.1 then some (f.1, true) else none
+  | .other => some f
+
+def runFlags : List SchemaStmt → Bool × Bool → (Bool × Bool) × Bool
+  | [], f => (f, false)
+  | st :: rest, f =>
+    match flagStep f st with
+    | some f' => runFlags rest f'
+    | none => (f, true)
+
+def flagReadOk (handlers : List ExcKind) (f : Bool × Bool) : Bool :=
+  !f.1 || f.2 || handlers.contains .stopIteration
+
+def prefixes {α : Type} : List α → List (List α)
+  | [] => [[]]
+  | a :: l => [] :: (prefixes l).map (a :: ·)
+
+/-- decidable summary of "open is safe" on flags: from each of the four flag states, after a kill behind any prefix
+    of the script (or no progress because the read raised), a complete open succeeds and ends with both flags set -/
+def flagsSafe (handlers : List ExcKind) (script : List SchemaStmt) : Bool :=
+  [(false, false), (false, true), (true, false), (true, true)].all fun f =>
+    (prefixes script).all fun p =>
+      let f1 := if flagReadOk handlers f then (runFlags p f).1 else f
+      flagReadOk handlers f1 && !(runFlags script f1).2 && (runFlags script f1).1 == (true, true)
 
 end Ipv8.C19
